@@ -72,7 +72,9 @@ def _gen(g):
         if k in ("call_async", "soon_value"):
             steps.append([t, k, ids, g.int(0, 3)])
         elif k == "start_task":
-            steps.append([t, k, ids, g.int(0, 3), g.choice(["return", "raise", "block"])])
+            steps.append([t, k, ids, g.int(0, 3), g.choice(["return", "raise", "block"]), g.chance(25)])
+        elif k == "soon_block":
+            steps.append([t, k, ids, g.chance(50)])      # raise an ordinary exception when cancelled?
         else:
             steps.append([t, k, ids])
         if k in ("soon_block", "soon_value", "start_task"):
@@ -104,6 +106,7 @@ def run_once(case, out, stats):
     exc_objs = {}
     errors = []
     late = set()        # ids of calls issued after the portal context had been left
+    bg_threads = []     # threads sitting inside a blocking start_task()
     state = {"stopped": False, "exit_begun": False}
     n_steps = len(case["steps"])
     turn = {"i": 0}
@@ -129,7 +132,7 @@ def run_once(case, out, stats):
         e = exc_objs[i] = Boom(i)
         raise e
 
-    async def blocker(i):
+    async def blocker(i, raise_on_cancel=False):
         note(i)
         ev = events.setdefault(i, anyio.Event())
         started_flag[i] = True
@@ -139,6 +142,10 @@ def run_once(case, out, stats):
             return ("released", i)
         except asyncio.CancelledError:
             ended[i] = "cancelled"
+            if raise_on_cancel:
+                # cleanup that fails / converts the cancellation into an ordinary error
+                e = exc_objs[i] = Boom(i)
+                raise e from None
             raise
 
     async def valuer(i, k):
@@ -152,11 +159,15 @@ def run_once(case, out, stats):
             ended[i] = "cancelled"
             raise
 
-    async def starter(i, k, post, *, task_status):
+    async def starter(i, k, post, park_before=False, *, task_status):
         note(i)
         try:
             for _ in range(k):
                 await asyncio.sleep(0)
+            if park_before:
+                ev0 = events.setdefault(("pre", i), anyio.Event())
+                started_flag[i] = True
+                await ev0.wait()
             task_status.started(("s", i))
             if post == "raise":
                 e = exc_objs[i] = Boom(i)
@@ -189,14 +200,14 @@ def run_once(case, out, stats):
                 except Boom as e:
                     results[i] = ("raised", e)
             elif op == "soon_block":
-                futures[i] = portal.start_task_soon(blocker, i)
+                futures[i] = portal.start_task_soon(blocker, i, len(step) > 3 and step[3])
                 results[i] = ("future",)
             elif op == "soon_value":
                 futures[i] = portal.start_task_soon(valuer, i, step[3])
                 results[i] = ("future",)
             elif op == "start_task":
                 try:
-                    fut, val = portal.start_task(starter, i, step[3], step[4])
+                    fut, val = portal.start_task(starter, i, step[3], step[4], len(step) > 5 and step[5])
                     futures[i] = fut
                     results[i] = ("started", val)
                 except FutCancelled:
@@ -221,9 +232,10 @@ def run_once(case, out, stats):
                     except Boom as e:
                         results[("result", i)] = ("raised", e)
             elif op == "release":
-                ev = events.get(i)
-                if ev is not None:
-                    portal.call(ev.set)
+                for key in (i, ("pre", i)):
+                    ev = events.get(key)
+                    if ev is not None:
+                        portal.call(ev.set)
         except RuntimeError as e:
             # the portal (or its task group / event loop) no longer accepts calls
             if op not in ("cancel", "result", "release"):
@@ -254,7 +266,18 @@ def run_once(case, out, stats):
                     if not cv.wait_for(lambda: turn["i"] >= idx, timeout=25):
                         errors.append((step, "turn-timeout"))
                         return
-            do_step(portal, step)
+            blocking = step[1] == "start_task" and len(step) > 5 and step[5]
+            if blocking:
+                # the caller stays inside start_task() until the child calls started(): issue it from a thread
+                # of its own so that the script of this caller thread goes on
+                bt = threading.Thread(target=do_step, args=(portal, step), daemon=True)
+                bt.start()
+                bg_threads.append(bt)
+                t0 = time.monotonic()       # wait until the child is running (or the call was answered): no race with stop()
+                while step[2] not in execs and step[2] not in results and time.monotonic() - t0 < 5:
+                    time.sleep(0.0005)
+            else:
+                do_step(portal, step)
             if idx < case["exit_at"]:
                 with lock:
                     state["pre_done"] = state.get("pre_done", 0) + 1
@@ -279,6 +302,7 @@ def run_once(case, out, stats):
     try:
         with start_blocking_portal(backend_options={"loop_factory": factory}) as portal:
             portal_thread["ident"] = portal.call(threading.get_ident)
+            portal_thread["loop"] = portal.call(asyncio.get_running_loop)
             threads = [threading.Thread(target=worker, args=(t, portal), daemon=True) for t in range(case["threads"])]
             for th in threads:
                 th.start()
@@ -304,14 +328,10 @@ def run_once(case, out, stats):
                             if ev.is_set():
                                 continue
                             try:
-                                portal.call(ev.set)
+                                # harness plumbing, not the API under test: wake the parked task through the loop
+                                portal_thread["loop"].call_soon_threadsafe(ev.set)
                             except RuntimeError:
-                                # portal already stopped: calls are refused; cancel the future instead
-                                f = futures.get(i)
-                                if f is not None:
-                                    with lock:
-                                        results.setdefault(("cancelled", i), True)
-                                    f.cancel()
+                                pass
                         time.sleep(0.01)
                 helper = threading.Thread(target=late_release, daemon=True)
                 helper.start()
@@ -336,8 +356,8 @@ def run_once(case, out, stats):
     snap_done = {i: f.done() for i, f in futures.items()}
     snap_ended = dict(ended)
     snap_execs = dict(execs)
-    for th in threads:
-        th.join(4 if case.get("race") else 25)
+    for th in threads + bg_threads:
+        th.join(4 if case.get("race") else 10)
         if th.is_alive():
             if case.get("race"):
                 out.bad("call-left-hanging", "F12:call-racing-with-portal-shutdown",
@@ -363,6 +383,9 @@ def run_once(case, out, stats):
         if r[0] == "refused":
             if execs.get(i, 0):
                 out.bad("refused-call-was-executed", op, f"{step}")
+            if i not in late and not case.get("race"):
+                out.bad("call-refused-while-portal-running", op,
+                        f"{step}: issued before the portal context was left, yet refused with {r[1]!r}")
             continue
         if i in late and not case.get("race"):
             out.bad("call-accepted-after-stop", op, f"{step}: issued after the portal context had been left, got {r!r}")
